@@ -225,3 +225,74 @@ def _reg_all(R):
     register(R)
     register_evaluate_node(R)
     register_xref(R)
+
+
+def register_evalnode(R):
+    EV = 'awesomeyaml/nodes/eval.py::'
+    ctx = lambda n='ctx': P.node(n, 'EvalContext', exact=True)
+    R.inline_keys |= {E + 'EvalContext.get_eval_symbols', 'awesomeyaml/utils.py::Bunch.__init__', EV + 'GlobalsWrapper.__init__'}
+    R.opaque['hashlib.md5'] = lambda it, a, kw, n, fr: OpaqueV('md5')
+    R.opaque['str.encode'] = lambda it, a, kw, n, fr: OpaqueV('bytes')
+    R.opaque['str.split'] = lambda it, a, kw, n, fr: _fresh_list(it)
+    R.opaque['types.ModuleType'] = lambda it, a, kw, n, fr: _fresh_module(it)
+    R.add(Contract(EV + 'EvalNode._patch_access_to_globals', [P.val('code', 'any')], name='abstract', assume_only=True, pure=True,
+                   result=lambda c, it: TupleV([SV(it.run.fresh('patched_code')), SV(it.run.fresh('did_something'))]), props=('C12',),
+                   note='the CPython bytecode rewriter: NOT under contract (a translator over interpreter-specific bytecode); see the recorded finding and the bounded stand-in'))
+
+    def gbls_at(kw):
+        g = kw['args'][1]
+        return kw['heap'].m(r_of(g.t))
+
+    def gate_run(sc, kw):
+        # code runs only for a safe node, in a namespace whose `ayns` entry is THIS call's context and partial config
+        m = gbls_at(kw)
+        h = kw['heap']
+        ay = m.get(mk_str('ayns'))
+        am = h.m(r_of(ay))
+        return z3.And(S.safe(sc.pre, sc.ref('self')),
+                      m.has(mk_str('ayns')), is_ref(ay), am.has(mk_str('ctx')), am.get(mk_str('ctx')) == sc['ctx'],
+                      am.has(mk_str('cfg')), am.get(mk_str('cfg')) == sc.pre.get('_ecfg', sc.ref('ctx')))
+
+    def gate_compile(sc, kw):
+        fn = kw['args'][1]
+        return z3.And(S.safe(sc.pre, sc.ref('self')), is_str(fn.t))
+
+    def req(c):
+        x = c.ref('ctx')
+        return [('valid', S.valid_flags(c.pre, c.ref('self'))), ('evaluation-in-progress', z3.And(is_ref(c.pre.get('_ecfg', x)), r_of(c.pre.get('_ecfg', x)) > 0)),
+                ('source-file-is-a-name-or-None', z3.Or(is_none(c.pre.get('_source_file', c.ref('self'))), is_str(c.pre.get('_source_file', c.ref('self'))))),
+                ('persistent-flag', is_bool(c.pre.get('persistent_namespace', c.ref('self')))),
+                ('no-eval-symbol-shadows-the-ayns-entry', z3.Not(c.pre.m(r_of(c.pre.get('_eval_symbols', x))).has(mk_str('ayns'))))]
+
+    R.add(Contract(EV + 'EvalNode.ayns.on_evaluate_impl', [P.node('self', ['EvalNode', 'FStrNode']), P.path('path'), ctx()], requires=req,
+                   modifies=lambda c: [(f, 'all') for f in ('$mlen', '$mkeyat', '$mpos', '$mval', '$llen', '$litem', '_require_all_safe')],
+                   raises=[Raises('UnsafeError', name='C07.UnsafeError'), Raises('EvalError', name='C12.user-code-failures-surface-as-EvalError'), Raises('AssertionError')],
+                   ensures=[('C07.returns-only-for-a-safe-node', lambda c: S.safe(c.pre, c.ref('self')))],
+                   result=P.val('result', 'any'), props=('C12', 'C07'),
+                   opts={'gates': {'compile-code': gate_compile, 'exec-code': gate_run, 'eval-code': gate_run, 'register-module': lambda sc, kw: z3.BoolVal(True)},
+                         'use': {EV + 'EvalNode._patch_access_to_globals': 'abstract', E + 'EvalContext.evaluate_node': 'abstract-any-prefix'},
+                         'no_search': True, 'no_frame': True, 'skip_kinds': ('safety',), 'opaque_text_comprehensions': True, 'gates_on_raise': True, 'asserts_are_checks': True},
+                   note='execution sites of !eval / f-string nodes: gated by safety; the file name handed to compile() is a string; the namespace the code runs in carries the context of this call'))
+
+
+def _fresh_list(it):
+    r = it.run.alloc('list')
+    it.heap.put_l(r, ListT.fresh(f'split!{it.run.nfresh}'))
+    it.run.nfresh += 1
+    it.run.assume(it.heap.l(r).len >= 1)
+    return SV(sym.mk_ref(r), hint=frozenset(['list']))
+
+
+def _fresh_module(it):
+    r = it.run.alloc('module')
+    d = it.run.alloc('dict')
+    it.heap.put_m(d, MapT.empty())
+    it.heap.put('$dict', r, sym.mk_ref(d))
+    return SV(sym.mk_ref(r), hint=frozenset(['module']))
+
+
+def _reg_all(R):
+    register(R)
+    register_evaluate_node(R)
+    register_xref(R)
+    register_evalnode(R)
